@@ -469,10 +469,27 @@ func c14Round(c *vr.Report, seen map[string]bool, cs c14Case) {
 	msg := bgp.NewBGPUpdateMessage(nil, attrs, c14Nlri())
 	upd := msg.Body.(*bgp.BGPUpdate)
 
-	// send side
+	// send side. The attribute OBJECTS of an outgoing message are the ones the route in the RIB holds
+	// (the packers copy the slice, not the attributes): the down-conversion must leave every object it
+	// was given as it found it, or every later advertisement of the route (to a 4-octet peer, to the
+	// same peer after a refresh, through the API) is built from the 2-octet form and the 4-octet
+	// numbers are lost for good.
+	given := append([]bgp.PathAttributeInterface{}, upd.PathAttributes...)
+	before := make([]string, len(given))
+	for i, a := range given {
+		b, _ := a.Serialize()
+		before[i] = fmt.Sprintf("%x|%s", b, a.String())
+	}
 	if site, m := c14Guard(func() { UpdatePathAttrs2ByteAs(upd); UpdatePathAggregator2ByteAs(upd) }); site != "" {
 		bad("panic-in-down-conversion:"+site, "panic: %s", m)
 		return
+	}
+	for i, a := range given {
+		b, _ := a.Serialize()
+		if now := fmt.Sprintf("%x|%s", b, a.String()); now != before[i] {
+			bad(fmt.Sprintf("down-conversion-alters-shared-attribute:type=%d", a.GetType()),
+				"the attribute object handed to the down-conversion (shared with the stored route) was altered in place: %s -> %s", before[i], now)
+		}
 	}
 	var wire []byte
 	var serr error
